@@ -161,9 +161,14 @@ def r_C27(root):
 def r_C14c(root):
     t = load(root, "textx/model.py"); out = []
     def names_in(fn):
+        fi_ = sem.info(fn)
         for n in own_nodes(fn):
-            if isinstance(n, ast.For) and isinstance(n.iter, ast.Tuple) and all(isinstance(e, ast.Constant) for e in n.iter.elts): return {e.value for e in n.iter.elts}
-        raise AnalysisError("dunder name tuple not found in " + fn.name)
+            if not isinstance(n, ast.For): continue
+            it = fi_.expand(n.iter, at=n.iter)
+            if isinstance(it, ast.Call) and isinstance(it.func, ast.Attribute) and it.func.attr in ("items", "keys"): it = it.func.value
+            if isinstance(it, (ast.Tuple, ast.List)) and it.elts and all(isinstance(e, ast.Constant) and isinstance(e.value, str) for e in it.elts): return {e.value for e in it.elts}
+            if isinstance(it, ast.Dict) and it.keys and all(isinstance(k, ast.Constant) and isinstance(k.value, str) for k in it.keys): return {k.value for k in it.keys}
+        raise AnalysisError("dunder name table not found in " + fn.name)
     rep = names_in(find(t, "_replace_user_attr_methods_for_class")); res = names_in(find(t, "_restore_user_attr_methods"))
     if not rep <= res: out.append(Finding("C14", "C14.c", "textx/model.py", "_restore_user_attr_methods", str(sorted(res)), "replaced but never restored: %s" % sorted(rep - res)))
     return len(rep), out
